@@ -44,6 +44,9 @@ HAND = [
     ("g10", [(16, 6), (22, 6)], [(18, 4), (22, 4), (27, 1)]),
     ("g11", [(16, 1), (18, 1)], [(16, 1), (18, 1)]),
     ("g12", [(16, 6), (30, 6)], [(16, 4), (32, 4)]),
+    # a register-less area directly behind an area full of registers (seed C05-H: validation bounds taken from the
+    # entry run of the area a block ends in)
+    ("g13", [(16, 4), (20, 2)], [(16, 2), (18, 2)]),
 ]
 
 HAND3 = [
@@ -84,7 +87,7 @@ def _random_geoms(count, na_max, nr_max, aw, seed):
 
 def geometries(tier):
     if tier == "quick":
-        return [g for g in HAND if g[0] in ("g01", "g02", "g03", "g04", "g06", "g07", "g08", "g11")]
+        return [g for g in HAND if g[0] in ("g01", "g02", "g03", "g04", "g06", "g07", "g08", "g11", "g13")]
     return HAND + HAND3 + _random_geoms(24, 3, 4, 6, 20261001)
 
 
